@@ -37,6 +37,8 @@ func main() {
 			runH1Cleanup(*out, *seed, *tier)
 		case "fsmreports":
 			runH1Reports(*out, *seed, *tier)
+		case "fsmpause":
+			runH1Pause(*out, *seed, *tier)
 		case "fsmhist":
 			runH1Hist(*out, *seed, *tier)
 		default:
